@@ -106,7 +106,7 @@ func main() {
 		"case = PRNG(seed,i) → (batching/ticker/pipeline/txn/db-map/filter configuration, generated stream with unique ids, feeding plan); "+
 			"non-trivial = the target log held ≥2 flushed batches and the stream held ≥1 SELECT and ≥1 write; distinct = (configuration class, batch-shape histogram)")
 	run.Watchdog(25 * time.Minute)
-	n := run.N(120, 3000)
+	n := run.N(400, 6000)
 	run.Assume("target double executes requests in arrival order per connection and logs them faithfully (fakeredis)")
 	run.Assume("LogOnly mode: business writes are answered +OK without type checks; only the command log is judged")
 
